@@ -5,6 +5,7 @@ import (
 	"go/ast"
 	"go/constant"
 	"go/token"
+	"go/types"
 	"sort"
 	"strings"
 
@@ -214,6 +215,10 @@ func checkC05(r *core.Run) {
 	c05HeightPush(r, p)
 	// the per-transaction checks run in goroutines the caller waits for (shared with C11)
 	wgDiscipline(r, p, "R-C05-body", "checkers-counted-before-start", func(path string) bool { return strings.HasSuffix(path, "lib/chain") })
+	// a failed transaction check reported by a worker reaches the caller (the report is a non-blocking send)
+	nonBlockingSendsKept(r, p, "R-C05-body", "checker-verdicts-kept", func(path string) bool {
+		return strings.HasSuffix(path, "lib/chain") || strings.HasSuffix(path, "lib/btc") || strings.HasSuffix(path, "lib/utxo")
+	})
 	gb("first-is-coinbase", "a first transaction that is not a coinbase is rejected", func(iff *ssa.If) (bool, bool) {
 		ok, f := an.MatchBoolCall(false, "(*lib/btc.Tx).IsCoinBase")(iff)
 		if !ok {
@@ -966,4 +971,99 @@ func c05HeightPush(r *core.Run, p *core.Program) {
 	}
 	sort.Strings(probs)
 	r.Check(len(probs) == 0, rule, "bip34/height-encoding", p.Pos(fn.Pos()), "minimal script-number push: little-endian, zero top bytes dropped unless the byte below has its sign bit set", strings.Join(probs, "; "))
+}
+
+// chanOrigin resolves a channel value to the make(chan) that created it, through loads of local or captured
+// variables that are stored exactly once.
+func chanOrigin(v ssa.Value, depth int) *ssa.MakeChan {
+	if depth > 6 {
+		return nil
+	}
+	switch x := v.(type) {
+	case *ssa.MakeChan:
+		return x
+	case *ssa.ChangeType:
+		return chanOrigin(x.X, depth+1)
+	case *ssa.UnOp:
+		if x.Op != token.MUL {
+			return nil
+		}
+		var cell ssa.Value = x.X
+		if fv, ok := cell.(*ssa.FreeVar); ok {
+			fn := fv.Parent()
+			idx := -1
+			for i, f := range fn.FreeVars {
+				if f == fv {
+					idx = i
+				}
+			}
+			par := fn.Parent()
+			if idx < 0 || par == nil {
+				return nil
+			}
+			cell = nil
+			an.Instrs(par, func(i ssa.Instruction) {
+				if mc, ok := i.(*ssa.MakeClosure); ok && mc.Fn == ssa.Value(fn) && idx < len(mc.Bindings) {
+					cell = mc.Bindings[idx]
+				}
+			})
+			if cell == nil {
+				return nil
+			}
+		}
+		al, ok := cell.(*ssa.Alloc)
+		if !ok {
+			return nil
+		}
+		var vals []ssa.Value
+		for _, ref := range *al.Referrers() {
+			if st, ok := ref.(*ssa.Store); ok && st.Addr == ssa.Value(al) {
+				vals = append(vals, st.Val)
+			}
+		}
+		if len(vals) == 1 {
+			return chanOrigin(vals[0], depth+1)
+		}
+	}
+	return nil
+}
+
+// nonBlockingSendsKept: a result reported with a non-blocking send (select { case ch <- v: default: }) is
+// kept only if the channel can hold it: on an unbuffered channel the send succeeds only while a receiver is
+// already waiting, otherwise the default branch runs and the result is lost.  Every non-blocking send whose
+// channel is created in the program with a constant capacity must find capacity >= 1.
+func nonBlockingSendsKept(r *core.Run, p *core.Program, rule, key string, inPkg func(string) bool) {
+	n := 0
+	var bad []string
+	for _, fn := range p.ModuleFuncs() {
+		pk := core.FuncPkg(fn)
+		if pk == nil || !inPkg(pk.Path()) {
+			continue
+		}
+		an.Instrs(fn, func(i ssa.Instruction) {
+			sel, ok := i.(*ssa.Select)
+			if !ok || sel.Blocking {
+				return
+			}
+			for _, st := range sel.States {
+				if st.Dir != types.SendOnly {
+					continue
+				}
+				mc := chanOrigin(st.Chan, 0)
+				if mc == nil {
+					continue
+				}
+				k, isC := an.ConstOf(mc.Size)
+				if !isC {
+					continue
+				}
+				n++
+				if k.Sign() == 0 {
+					bad = append(bad, fmt.Sprintf("the non-blocking send at %s in %s goes to the unbuffered channel made at %s: the value is dropped unless a receiver is already waiting", p.Pos(sel.Pos()), core.FuncName(fn), p.Pos(mc.Pos())))
+				}
+			}
+		})
+	}
+	sort.Strings(bad)
+	r.Check(len(bad) == 0 && n >= 1, rule, key, "-", fmt.Sprintf("%d non-blocking send(s) into channels of known capacity, each >= 1", n), strings.Join(bad, "; "))
 }
